@@ -349,6 +349,10 @@ CatFull == [h \in {"h1", "h2", "h3", "h4", "h5", "h6", "h7", "h8", "h9"} |->
                 [] h = "h6" -> Msg("A", "A")      \* what the files say
                 [] h = "h8" -> Msg("-", "B")      \* rules only: the config part is the file's again
                 [] OTHER -> CatQuick[h]]
+CatBig == [h \in {"h1", "h2", "h3", "h4", "h5", "h6", "h7", "h8", "h9", "h10", "h11"} |->
+              CASE h = "h10" -> Msg("W", "-")     \* warning, then h2 changes the rules only
+                [] h = "h11" -> Msg("X", "X")     \* both refused
+                [] OTHER -> CatFull[h]]
 CatOne == [h \in {"h1", "h3"} |-> CatQuick[h]]
 CatUsage == [h \in {"hn", "h1"} |-> IF h = "hn" THEN Msg("N", "-") ELSE Msg("B", "-")]
 CatNone == [h \in {} |-> Msg("-", "-")]
